@@ -2,6 +2,7 @@ package regclient
 
 import (
 	"archive/tar"
+	"bytes"
 	"cmp"
 	"compress/gzip"
 	"context"
@@ -1333,13 +1334,18 @@ func (rc *RegClient) ImageImport(ctx context.Context, r ref.Ref, rs io.ReadSeeke
 }
 
 func (rc *RegClient) imageImportBlob(ctx context.Context, r ref.Ref, desc descriptor.Descriptor, trd *tarReadData) error {
+	return rc.imageImportBlobReader(ctx, r, desc, trd.tr)
+}
+
+// imageImportBlobReader uploads a blob from a reader, the tar entry may have already been read into memory.
+func (rc *RegClient) imageImportBlobReader(ctx context.Context, r ref.Ref, desc descriptor.Descriptor, rdr io.Reader) error {
 	// skip if blob already exists
 	_, err := rc.BlobHead(ctx, r, desc)
 	if err == nil {
 		return nil
 	}
 	// upload blob
-	_, err = rc.BlobPut(ctx, r, desc, trd.tr)
+	_, err = rc.BlobPut(ctx, r, desc, rdr)
 	if err != nil {
 		return err
 	}
@@ -1529,14 +1535,14 @@ func (rc *RegClient) imageImportOCIHandleManifest(ctx context.Context, r ref.Ref
 					mediatype.OCI1Layer, mediatype.OCI1LayerGzip, mediatype.OCI1LayerZstd,
 					mediatype.BuildkitCacheConfig:
 					// known blob media types
-					return rc.imageImportBlob(ctx, r, d, trd)
+					return rc.imageImportBlobReader(ctx, r, d, bytes.NewReader(b))
 				default:
 					// attempt manifest import, fall back to blob import
 					md, err := manifest.New(manifest.WithDesc(d), manifest.WithRaw(b))
 					if err == nil {
 						return rc.imageImportOCIHandleManifest(ctx, r, md, trd, true, child)
 					}
-					return rc.imageImportBlob(ctx, r, d, trd)
+					return rc.imageImportBlobReader(ctx, r, d, bytes.NewReader(b))
 				}
 			}
 		}
